@@ -48,6 +48,11 @@ type Term struct {
 	Fun *FuncVal
 	// Keys: for a map literal with constant keys, the key terms of Args (a switch written as data)
 	Keys []*Term
+	// BLit: for a boolean value written as a simple comparison inside a literal ("{cfg.X == nil, ...}"), the literal it
+	// stands for; it is decided where the value is tested, not where it is written (a table of conditions is data)
+	BLit *Lit
+	// List: the term is a literal list (array / slice written out element by element, possibly extended by append)
+	List bool
 	// ST: for a struct literal value, its struct type (a struct-valued field assigned as a whole is written field-wise)
 	ST *types.Struct
 }
